@@ -18,6 +18,7 @@ import (
 	"github.com/containerd/nri/pkg/net/multiplex"
 	"github.com/containerd/nri/pkg/vhook"
 
+	"verif/harness/isolate"
 	"verif/harness/rec"
 )
 
@@ -28,6 +29,17 @@ type TabOp struct {
 
 type TabScenario struct {
 	Ops []TabOp `json:"ops"`
+}
+
+// realID maps the connection ids of the scenarios to ids spread over the whole 32-bit range.
+func realID(x int) multiplex.ConnID {
+	switch x {
+	case 2:
+		return multiplex.ConnID(0x80000001)
+	case 3:
+		return multiplex.ConnID(0xFFFFFFFE)
+	}
+	return multiplex.ConnID(x)
 }
 
 type readRes struct {
@@ -95,13 +107,32 @@ func tabOne(scn int, sc TabScenario) ([]rec.Event, error) {
 	sent := 0
 	closed := false
 	for i, op := range sc.Ops {
-		e := rec.Event{"ev": "Op", "scn": scn, "i": i + 1, "op": op.Op, "x": op.X, "r": "", "n": 0, "h": 0}
+		e := rec.Event{"ev": "Op", "scn": scn, "i": i + 1, "op": op.Op, "x": op.X, "r": "", "n": 0, "h": 0, "same": true}
 		switch op.Op {
 		case "Open":
-			c, err := a.Open(multiplex.ConnID(op.X))
-			if err != nil {
-				return nil, err
+			// Open is atomic: several goroutines opening the same id at once all get the same connection
+			const par = 4
+			got := make([]net.Conn, par)
+			var ow sync.WaitGroup
+			for k := 0; k < par; k++ {
+				ow.Add(1)
+				go func(k int) {
+					defer ow.Done()
+					got[k], _ = a.Open(realID(op.X))
+				}(k)
 			}
+			ow.Wait()
+			c := got[0]
+			if c == nil {
+				return nil, fmt.Errorf("scenario %d: Open failed", scn)
+			}
+			same := true
+			for _, g := range got {
+				if g != c {
+					same = false
+				}
+			}
+			e["same"] = same
 			h := 0
 			for k, x := range handles {
 				if x == c {
@@ -128,7 +159,7 @@ func tabOne(scn int, sc TabScenario) ([]rec.Event, error) {
 		case "Send":
 			p, ok := peers[op.X]
 			if !ok {
-				p, err = b.Open(multiplex.ConnID(op.X))
+				p, err = b.Open(realID(op.X))
 				if err != nil {
 					return nil, err
 				}
@@ -170,7 +201,7 @@ func tabOne(scn int, sc TabScenario) ([]rec.Event, error) {
 	}
 	if !closed {
 		a.Close()
-		evs = append(evs, rec.Event{"ev": "Op", "scn": scn, "i": len(sc.Ops) + 1, "op": "MClose", "x": 0, "r": "", "n": 0, "h": 0})
+		evs = append(evs, rec.Event{"ev": "Op", "scn": scn, "i": len(sc.Ops) + 1, "op": "MClose", "x": 0, "r": "", "n": 0, "h": 0, "same": true})
 	}
 	final := []readRes{}
 	for _, h := range handles {
@@ -181,7 +212,7 @@ func tabOne(scn int, sc TabScenario) ([]rec.Event, error) {
 }
 
 // RunTable replays table scenarios.
-func RunTable(in, out string) error {
+func RunTable(in, out string, skip int) error {
 	f, err := os.Open(in)
 	if err != nil {
 		return err
@@ -192,6 +223,7 @@ func RunTable(in, out string) error {
 		return err
 	}
 	defer w.Close()
+	w.Sync = true
 	sc := bufio.NewScanner(f)
 	sc.Buffer(make([]byte, 1<<20), 1<<24)
 	n := 0
@@ -201,11 +233,16 @@ func RunTable(in, out string) error {
 			continue
 		}
 		n++
+		if n <= skip {
+			continue
+		}
 		var s TabScenario
 		if err := json.Unmarshal([]byte(line), &s); err != nil {
 			return fmt.Errorf("scenario %d: %w", n, err)
 		}
+		done := isolate.Guard(30*time.Second, fmt.Sprintf("table scenario %d", n))
 		evs, err := tabOne(n, s)
+		done()
 		if err != nil {
 			return err
 		}
